@@ -36,10 +36,11 @@ Definition hydro_check (rows : tables) (c : texture * Z * float * float * float 
 
 (* ---------------- whole runs ---------------- *)
 Record c15_static := {
-  cs_route : nat;                                  (* 0 table, 1 explicit values, 2 pedotransfer function *)
+  cs_route : nat;                                  (* 0: PTF = 0 (per horizon: explicit values or table), 2: pedotransfer function *)
+  cs_cappar : bool;                                (* CAPPAR == 1 as the probe shows it on the first day *)
   cs_sand : bool; cs_n : nat; cs_gw : float; cs_grw0 : float;
-  cs_thz : list (texture * Z * float * float * Z); (* table route: texture, LD, Corg, stone fraction, UKT *)
-  cs_ehz : list (float * float * float * Z);       (* explicit route: FKA, WP, GPV (percent), UKT *)
+  (* per horizon: texture, LD, Corg, stone fraction, UKT, (FKA, WP, GPV) of the soil file (percent; 0 = column empty) *)
+  cs_hz : list (texture * Z * float * float * Z * (float * float * float));
   cs_wb : list float; cs_wmb : list float; cs_pb : list float; cs_wnb : list float;   (* the backups Input saved *)
 }.
 
@@ -47,44 +48,44 @@ Definition params_same (a : params (T:=float)) (w wmin porges wnor : list float)
   (bit (floats_same (P_w a) w) 1 + bit (floats_same (P_wmin a) wmin) 2 + bit (floats_same (P_porges a) porges) 4
    + bit (floats_same (P_wnor a) wnor) 8 + bit (float_same (P_wred a) wred) 16)%nat.
 
-Definition thz_of (rows : tables) (s : c15_static) : option (list (thorizon (T:=float))) :=
-  fold_right (fun (h : texture * Z * float * float * Z) acc =>
-                let '(t, ld, c, st, ukt) := h in
+Definition fhz_of (rows : tables) (s : c15_static) : option (list (fhorizon (T:=float))) :=
+  fold_right (fun (h : texture * Z * float * float * Z * (float * float * float)) acc =>
+                let '(t, ld, c, st, ukt, e) := h in
                 match triple_of rows t ld, acc with
-                | Some tr, Some l => Some ((t, tr, c, st, ukt) :: l)
+                | Some tr, Some l => Some (((t, tr, c, st, ukt), e) :: l)
                 | _, _ => None
-                end) (Some []) (cs_thz s).
+                end) (Some []) (cs_hz s).
 
 Definition backup_of (s : c15_static) (wred : float) : params (T:=float) :=
   {| P_w := cs_wb s; P_wmin := cs_wmb s; P_porges := cs_pb s; P_wnor := cs_wnb s; P_wred := wred |}.
 
 (* what Input assigned (before the groundwater raise): from the soil data where the probe shows them, else the backups *)
-Definition base_of (rows : tables) (s : c15_static) : option (params (T:=float)) :=
+Definition base_of (rows : tables) (s : c15_static) : option (params (T:=float) * bool) :=
   match cs_route s with
-  | 0%nat => match thz_of rows s with Some hz => Some (table_params (cs_n s) hz (cs_gw s)) | None => None end
-  | 1%nat =>
-      let ls := layers (cs_n s) (map (fun h : float * float * float * Z => let '(fka, wp, gpv, ukt) := h in (route_explicit fka wp gpv, ukt)) (cs_ehz s)) in
-      Some (params_of ls (match cs_ehz s with (fka, wp, _, _) :: _ => wred_explicit (cs_sand s) fka wp | [] => PrimFloat.zero end))
+  | 0%nat => match fhz_of rows s with
+             | Some hz => Some (file_params (cs_n s) hz (cs_gw s), file_cappar hz)
+             | None => None
+             end
   | _ => Some (backup_of s (calc_wred (cs_sand s) (PrimFloat.mul (nth 0 (cs_wmb s) PrimFloat.zero) (F.of_Z 100))
-                                      (PrimFloat.mul (nth 0 (cs_wb s) PrimFloat.zero) (F.of_Z 100))))
+                                      (PrimFloat.mul (nth 0 (cs_wb s) PrimFloat.zero) (F.of_Z 100))), true)
   end.
 
 (* one observed day: (initial?, GRW, W, WMIN, PORGES, WNOR, WRED).  Result bits: 1-16 arrays/WRED of the day,
-   32 backups differ from the route's assignment, 64 texture/density class not in the table *)
+   32 backups differ from the routes' assignment, 64 texture/density class not in the table, 128 CAPPAR differs *)
 Definition gwday_check (rows : tables) (c : c15_static * (bool * float * list float * list float * list float * list float * float)) : nat :=
   let '(s, (initial, grw, w, wmin, porges, wnor, wred)) := c in
   match base_of rows s with
   | None => 64%nat
-  | Some base =>
+  | Some (base, cappar) =>
       if initial then
         (params_same (initial_params base (cs_gw s) (cs_grw0 s)) w wmin porges wnor wred
-         + bit (Nat.eqb (params_same base (cs_wb s) (cs_wmb s) (cs_pb s) (cs_wnb s) (P_wred base)) 0) 32)%nat
+         + bit (Nat.eqb (params_same base (cs_wb s) (cs_wmb s) (cs_pb s) (cs_wnb s) (P_wred base)) 0) 32
+         + bit (Bool.eqb cappar (cs_cappar s)) 128)%nat
+      else if cappar then
+        params_same (gw_update_restore (cs_sand s) (backup_of s PrimFloat.zero) grw) w wmin porges wnor wred
       else
-        match cs_route s with
-        | 0%nat => match thz_of rows s with
-                   | Some hz => params_same (gw_update_table (cs_n s) hz grw) w wmin porges wnor wred
-                   | None => 64%nat
-                   end
-        | _ => params_same (gw_update_restore (cs_sand s) (backup_of s PrimFloat.zero) grw) w wmin porges wnor wred
+        match fhz_of rows s with
+        | Some hz => params_same (gw_update_table (cs_n s) (map fst hz) grw) w wmin porges wnor wred
+        | None => 64%nat
         end
   end.
